@@ -5,6 +5,8 @@ package main
 import (
 	"github.com/go-kit/log"
 	"go.universe.tf/metallb/internal/allocator/k8salloc"
+	"k8s.io/apimachinery/pkg/types"
+	ctrl "sigs.k8s.io/controller-runtime"
 	vr "go.universe.tf/metallb/internal/verifrt"
 	v1 "k8s.io/api/core/v1"
 	metav1 "k8s.io/apimachinery/pkg/apis/meta/v1"
@@ -24,7 +26,8 @@ func init() {
 
 // VerifControllerSharing (C01 sharing clause through the controller, C07): two Services on a pool with a
 // single address. Sharing key, (protocol, port) set, external traffic policy and pod selector of each are symbolic.
-// mode 0: the second Service is allocated automatically; 1: it asks for the address explicitly.
+// mode 0: the second Service is allocated automatically; 1: it asks for the address explicitly; 2: as 0, then
+// the first Service changes its traffic policy / pod selector and the clauses are judged after that event.
 // clause 0 (C01): both hold the address only if the statement allows them to share. clause 1 (C07): if the
 // statement allows them to share, nobody stays without address.
 func VerifControllerSharing(mode, clause int) {
@@ -40,8 +43,13 @@ func VerifControllerSharing(mode, clause int) {
 	var specs []*spec
 	for i := 0; i < 2; i++ {
 		s := &spec{name: []string{"ns0/s0", "ns0/s1"}[i]}
-		s.sharing = vr.PickString("", "k", "k2")
-		s.ports = vr.Choose(len(vhPortMenu))
+		if mode == 2 {
+			// the event case varies policies and selectors only: same key, disjoint ports
+			s.sharing, s.ports = "k", []int{0, 3}[i]
+		} else {
+			s.sharing = vr.PickString("", "k", "k2")
+			s.ports = vr.Choose(len(vhPortMenu))
+		}
 		s.local = vr.Bool()
 		s.sel = vr.Choose(3)
 		svc := &v1.Service{ObjectMeta: metav1.ObjectMeta{Namespace: "ns0", Name: s.name[4:], Annotations: map[string]string{}},
@@ -70,6 +78,27 @@ func VerifControllerSharing(mode, clause int) {
 	w.c.SetPools(log.NewNopLogger(), vhCtlPools(ps))
 	w.reload()
 	a, b := specs[0], specs[1]
+	if mode == 2 {
+		// one event after the first settling: the first Service changes its traffic policy and pod
+		// selector (everything else stays); the clauses are judged on the state after the event has
+		// settled, including the re-syncs it requested
+		a.local = vr.Bool()
+		a.sel = vr.Choose(3)
+		obj := api.objs[a.name]
+		obj.Spec.ExternalTrafficPolicy = v1.ServiceExternalTrafficPolicyTypeCluster
+		if a.local {
+			obj.Spec.ExternalTrafficPolicy = v1.ServiceExternalTrafficPolicyTypeLocal
+		}
+		obj.Spec.Selector = nil
+		switch a.sel {
+		case 1:
+			obj.Spec.Selector = map[string]string{"app": "a"}
+		case 2:
+			obj.Spec.Selector = map[string]string{"app": "b"}
+		}
+		req := ctrl.Request{NamespacedName: types.NamespacedName{Namespace: "ns0", Name: a.name[4:]}}
+		w.settle(&req)
+	}
 	disjoint := true
 	for _, x := range vhPortMenu[a.ports] {
 		for _, y := range vhPortMenu[b.ports] {
